@@ -53,7 +53,8 @@ def generate(src):
         callee = st.env[ast.unparse(e.func)]; c = to_val(callee)
         oblige(st, f"exception_to_python/call-target@{ast.unparse(e)}: the callee is a class and a BaseException subclass  [C20]", And(is_type(c), is_exc_cls(c)))
         g = st.ghost; unresolved = Or(g['lookup_failed'], st.heap.field('exc_module')[Val.a(to_val(st.env['exc']))] == Val.none)
-        oblige(st, "exception_to_python/synthetic: a type that cannot be resolved (unknown module / attribute, or no module) is replaced by a synthetic exception class of that name  [C20]",
+        first = not g.get('dyn_seen'); setG(st, dyn_seen=True)          # the class the stored type name resolves to is the FIRST dynamic callee of a path (later ones, e.g. gated base classes in a fallback, only need the call-target obligation)
+        if first: oblige(st, "exception_to_python/synthetic: a type that cannot be resolved (unknown module / attribute, or no module) is replaced by a synthetic exception class of that name  [C20]",
                Implies(unresolved, And(c == g['synthetic'], g['synth_name'] == st.heap.field('exc_type')[Val.a(to_val(st.env['exc']))])))
         dyn_calls.append(ast.unparse(e))
         ok = st.fork(); r = fresh('inst'); ok.pc.append(is_exc_inst(r)); k(ok, r)
@@ -61,8 +62,42 @@ def generate(src):
     def h_recursive(ex, st, e, recv, args, kw, k, K):
         ok = st.fork(); r = fresh('rec'); ok.pc.append(Or(r == Val.none, is_exc_inst(r))); k(ok, r)
         f = st.fork(); setG(f, from_recursion=BoolVal(True)); K['exc'](f, new_exc(f, 'SecurityError'))
+    def h_for_generic(ex, s, st, k, K):
+        """any other loop of the load path: the loop variable is an ARBITRARY value (nothing is known about what an iterable yields), every local
+        assigned in the body is havocked at the loop head and after the loop, constrained only by the candidate invariants ("is an exception
+        instance", "is an exception class") that hold at entry and are preserved by the body (Houdini: candidates that are not preserved are
+        dropped and the body is re-executed).  Sound for the call-target obligations: they are checked inside the body for the arbitrary element."""
+        if s.orelse: raise Unsupported("for/else in exception_to_python")
+        assigned = sorted({n_.id for n_ in ast.walk(s) if isinstance(n_, ast.Name) and isinstance(n_.ctx, ast.Store)})
+        tnames = {n_.id for n_ in ast.walk(s.target) if isinstance(n_, ast.Name)}
+        cands = []
+        for v in assigned:
+            if v in tnames or v not in st.env or not (is_expr(st.env[v]) or st.env[v] is None): continue
+            for nm, pred in (('exc_inst', lambda x: Or(x == Val.none, is_exc_inst(x))), ('exc_cls', lambda x: And(is_type(x), is_exc_cls(x)))):
+                chk = st.fork(); chk.pc.append(Not(pred(to_val(st.env[v]))))
+                if not ex.feasible(chk): cands.append((v, nm, pred))
+        def havoc(state):
+            state.env = dict(state.env)
+            for v in assigned: state.env[v] = fresh(v)
+            for v, nm, pred in cands: state.pc.append(pred(state.env[v]))
+        for _round in range(4):
+            nobl = len(OBL); ends = []; exits_ = []
+            it = st.fork(); havoc(it)
+            K2 = dict(K); K2['brk'] = lambda s3: exits_.append(s3); K2['cont'] = lambda s3: ends.append(s3)
+            ex.block(s.body, it, lambda s3: ends.append(s3), K2)
+            bad = []
+            for (v, nm, pred) in cands:
+                for e_ in ends:
+                    if v not in e_.env: continue
+                    chk = e_.fork(); chk.pc.append(Not(pred(to_val(e_.env[v]))))
+                    if ex.feasible(chk): bad.append((v, nm)); break
+            if not bad: break
+            del OBL[nobl:]; cands = [c for c in cands if (c[0], c[1]) not in bad]          # the obligations of a discarded round are re-generated
+        else: raise Unsupported("loop invariant inference did not converge: " + ast.unparse(s.iter))
+        for s3 in exits_: k(s3)
+        out = st.fork(); havoc(out); return k(out)
     def h_for(ex, s, st, k, K):
-        if not (isinstance(s.iter, ast.Call) and isinstance(s.iter.func, ast.Attribute) and s.iter.func.attr == 'split' and isinstance(s.target, ast.Name)): raise Unsupported("exception_to_python: loop over " + ast.unparse(s.iter))
+        if not (isinstance(s.iter, ast.Call) and isinstance(s.iter.func, ast.Attribute) and s.iter.func.attr == 'split' and isinstance(s.target, ast.Name)): return h_for_generic(ex, s, st, k, K)
         it = st.fork(); it.env = dict(it.env); it.env['cls'] = fresh('cls'); it.env['name'] = fresh('name')
         ex.block(s.body, it, lambda s3: None, K)                       # arbitrary iteration (invariant: True)
         out = st.fork(); out.env = dict(out.env); out.env['cls'] = fresh('cls'); return k(out)
@@ -82,10 +117,12 @@ def generate(src):
             if p.startswith('exc.'): return k(st, st.heap.field(e.attr)[Val.a(to_val(st.env['exc']))])
             return super().ev_Attribute(e, st, k, K)
         def ev_Starred(self, e, st, k, K): return self.ev(e.value, st, k, K)
+        def ev_Call(self, e, st, k, K):
+            self.cur_env = st.env; return super().ev_Call(e, st, k, K)
         def ev_IfExp(self, e, st, k, K):
             return self.ev(e.test, st, lambda s, v: self.branch(s, truthy(v), lambda a: self.ev(e.body, a, k, K), lambda b: self.ev(e.orelse, b, k, K)), K)
         def find_handler(self, name, recv=None):
-            if name == 'cls': return h_dynamic
+            if name == 'cls' or (name.isidentifier() and name in getattr(self, 'cur_env', {}) and name not in self.handlers): return h_dynamic          # a local variable is called: dynamic callee
             h = super().find_handler(name, recv)
             if h is None:
                 self.unmodelled.add(name)
@@ -172,9 +209,12 @@ def generate(src):
             for n_ in ast.walk(fd):
                 if isinstance(n_, ast.Call) and isinstance(n_.func, ast.Name) and n_.func.id in module_funcs and n_.func.id not in load_path:
                     load_path[n_.func.id] = module_funcs[n_.func.id]; changed = True
+    dyn_names = sorted({c.split('(')[0] for c in dyn_calls})
     callees = sorted({ast.unparse(n.func) for fd in load_path.values() for n in ast.walk(fd) if isinstance(n, ast.Call)})
     known = set(load_path) | {'isinstance', 'issubclass', 'get_pickled_exception', 'create_exception_cls', 'subclass_exception', 'getattr', 'exc_type.split', 'taskiq.exceptions.SecurityError', 'Exception', 'exception_to_python',
-             'cls', 'exc.restore', 'type', 'create_exception_cls(self.exc_cls_name, self.exc_module)', 'validate_call', 'pydantic.ConfigDict'}          # the last two: the @validate_call decorator (TRUSTED)
+             'cls', 'exc.restore', 'type', 'getmro', 'inspect.getmro', 'takewhile', 'itertools.takewhile', 'tuple', 'list', 'len', 'str', 'repr', 'reversed', 'iter', 'next',          # pure builtins / stdlib helpers
+             *dyn_names,          # local variables that are called: each such site carries a proved call-target obligation (h_dynamic)
+             'create_exception_cls(self.exc_cls_name, self.exc_module)', 'validate_call', 'pydantic.ConfigDict'}          # the last two: the @validate_call decorator (TRUSTED)
     sf = State()
     oblige(sf, "load path/frame: no import statement, __import__, importlib, eval, exec or compile anywhere on the load path  [C20]", BoolVal(not any(banned(fd) for fd in load_path.values())), witness={})
     oblige(sf, "load path/frame: every callee on the load path is accounted for (gate-protected dynamic call, repo function under contract, or a pure builtin)  [C20]", BoolVal(set(callees) <= known))
